@@ -39,8 +39,8 @@ var ProbeNames = map[int]string{
 }
 
 var names = [...]string{"WORKSTATION", "FILESRV", "DOMAIN"}
-var ttlChoices = [...]int64{0, 20e9, 60e9, 24 * 3600e9}
-var jumpChoices = [...]int64{1e9 + 1, 31e9 + 1, 61e9 + 1, 25*3600e9 + 1}
+var ttlChoices = [...]int64{0, 20e9, 60e9, 24 * 3600e9, 300e6}
+var jumpChoices = [...]int64{1e9 + 1, 31e9 + 1, 61e9 + 1, 25*3600e9 + 1, 400e6 + 1}
 
 // v6Addrs: in this run the owners are three distinct IPv6 addresses (the form of an address is then irrelevant).
 // Set per run; runs of one worker process are sequential.
@@ -164,7 +164,7 @@ func apply(ns *nbtns.NetBIOSNameServer, c *client, in In, scribble bool) Out {
 // genOp always draws the same number of choices, whatever it generates, so that the
 // minimiser can change or drop one operation without shifting the meaning of the rest.
 func genOp(ttl [3]int64, mix int, perOpTTL bool) In {
-	kd, nm, gr, ad, fm, tt := hx.G(9), hx.G(3), hx.G(2), hx.G(3), hx.G(2), hx.G(4)
+	kd, nm, gr, ad, fm, tt := hx.G(9), hx.G(3), hx.G(2), hx.G(3), hx.G(2), hx.G(len(ttlChoices))
 	var k OpKind
 	switch mix {
 	case 0: // registration heavy
@@ -183,7 +183,7 @@ func genOp(ttl [3]int64, mix int, perOpTTL bool) In {
 		return in
 	}
 	if k == OpJump {
-		in.TTL = jumpChoices[(nm+ad)%3] // 1 s, 31 s or 61 s
+		in.TTL = jumpChoices[[...]int{0, 1, 2, 4}[(nm+ad+fm)%4]] // 1 s, 31 s, 61 s or 0.4 s
 		return in
 	}
 	switch mix {
@@ -217,6 +217,9 @@ func Run(seed uint64, index int64, o hx.Opts) *hx.Result {
 	if o.Scenario == "seqenum" {
 		return runSeqEnum(seed, index, o)
 	}
+	if o.Scenario == "bulkenum" {
+		return runBulkEnum(seed, index, o)
+	}
 	if o.Scenario == "ttlenum" {
 		o.Param["ttl"] = 1
 		return runSeqEnum(seed, index, o)
@@ -245,7 +248,7 @@ func Run(seed uint64, index int64, o hx.Opts) *hx.Result {
 		secured := hx.G(2) == 1
 		var ttl [3]int64
 		for i := range ttl {
-			ttl[i] = ttlChoices[1+hx.G(3)]
+			ttl[i] = ttlChoices[1+hx.G(4)] // 20 s, 60 s, 24 h or 300 ms
 		}
 		if z := hx.G(24); z < 3 {
 			ttl[z] = 0
